@@ -122,6 +122,19 @@ theorem websocket_roundtrip (up : Bytes → Option Bytes) (ms : List Elem) (h : 
 
 /-! ## Limits -/
 
+/-- the limits the code enforces are the documented ones (the left-hand sides are regenerated
+from /repo on every run: a change of a constant, of the `headerMaxKeyLength-1` read limit, of the
+`>=` in the count check, of the dispatch table size … breaks this theorem) -/
+theorem documented_limits :
+    requestMaxMethodLength = 64 ∧ requestMaxURLLength = 2048 ∧ requestMaxProtocolLength = 64 ∧
+    headerMaxEntryCount = 255 ∧ headerMaxKeyLength = 512 ∧ headerKeyReadLimit = 511 ∧
+    headerMaxValueLength = 2048 ∧ headerValueReadLimit = 2048 ∧ headerCountCheckIsGe = true ∧
+    rtspMaxBodySize = 128 * 1024 ∧
+    responseMaxProtocolLength = 255 ∧ responseMaxStatusCodeLength = 4 ∧ responseMaxStatusMessageLength = 255 ∧
+    responseStatusCodeBits = 31 ∧ statusMessageCount = statusMessages.length ∧
+    interleavedFrameMagicByte = MAGIC.toNat ∧ connPeekSize = 2 ∧ connDiscardSize = 1 ∧ connDispatchPairs = 10 ∧
+    b64ReadSize = 1024 ∧ b64QuantumTruncation = true ∧ tunnelWriteIsOnePaddedBlock = true := by decide
+
 /-- **limits_output**: whatever bytes arrive, an element returned by `Conn.Read` is within the
 limits (method < 64, URL token < 2048, ≤ 255 header entries, key < 512, value < 2048, body ≤ 128 KiB,
 status code < 1000, status message < 255, channel < 256, payload < 64 KiB): an element beyond a
